@@ -648,6 +648,25 @@ def matrix(ctx, jinja2):
             mx.apply("C23", "format", K("%(a)s and %(b)05.1f"), {"a": "<x>", "b": 2.25}, (), expect=(lambda: "<x> and 002.2") if K is str else None)
             mx.apply("C23", "format", K("no placeholders"), (), (), expect=(lambda: "no placeholders") if K is str else None)
             mx.apply("C23", "format", K("%d"), ("x",), ())
+            # format is `string % values`: a single CONTAINER argument is one value, not the argument list
+            for tmpl, args in (("%s", ((1, 2),)), ("%s", ([1, 2],)), ("%s", ({"a": 1},)), ("%r|%s", ((1,), "x")), ("%s", ((),)),
+                               ("%(a)s", ({"a": 1},)), ("%s and %s", ((1, 2),)), ("%s", (0,)), ("%s", ("",)), ("%s", (None,)), ("%s", (False,))):
+                mx.apply("C23", "format", K(tmpl), args, (), expect=(lambda tmpl=tmpl, args=args: tmpl % args) if K is str else None)
+        # FALSY BUT VALID arguments: width 0, empty end / wrapstring / chars / new, count 0, precision 0, default 0 / "" / False
+        t0 = "foo bar baz qux"
+        mx.apply("C23", "truncate", t0, (9, True, "", 0), ("length", "killwords", "end", "leeway"), expect=lambda: t0[:9])
+        mx.apply("C23", "truncate", t0, (9, False, "", 0), ("length", "killwords", "end", "leeway"), expect=lambda: "foo bar")
+        mx.apply("C23", "wordwrap", t0, (7, True, ""), ("width", "break_long_words", "wrapstring"), expect=lambda: "foo barbaz qux")
+        mx.apply("C23", "indent", "a\nb", ("", True, True), ("width", "first", "blank"), expect=lambda: "a\nb")
+        mx.apply("C23", "indent", "a\nb", (0, True), ("width", "first"), expect=lambda: "a\nb")
+        mx.apply("C23", "trim", " x ", ("",), ("chars",), expect=lambda: " x ")
+        mx.apply("C23", "replace", "aaa", ("a", "", 2), ("old", "new", "count"), expect=lambda: "a")
+        mx.apply("C23", "replace", "aaa", ("a", "b", 0), ("old", "new", "count"), expect=lambda: "aaa")
+        mx.apply("C23", "center", "x", (0,), ("width",), expect=lambda: "x")
+        mx.apply("C23", "int", "x", (False,), ("default",), expect=lambda: False)
+        mx.apply("C23", "float", "x", ("",), ("default",), expect=lambda: "")
+        mx.apply("C23", "filesizeformat", 0, (False,), ("binary",), expect=lambda: "0 Bytes")
+        mx.apply("C23", "filesizeformat", -0.0, (), (), expect=lambda: "0 Bytes")
         # urlencode of mappings and pair iterables
         for m in ({"ab": 1}, {"a b": "c&d", "x": "é/ü"}, {}):
             for make in (dict, lambda d: list(d.items()), types.MappingProxyType, lambda d: iter(list(d.items()))):
@@ -692,6 +711,7 @@ def matrix(ctx, jinja2):
             for a in ((), (0.5,), ("d",), (7,), (True,), (None,)):
                 mx.apply("C23", "float", v, a, ("default",), expect=lambda a=a, ref_float=ref_float: ref_float(*((v,) + a)))
         mx.history_pass()
+        mx.alternation_pass(envnames=("sync", "async"))
     finally:
         mx.close()
     # configuration history: a policy changed between two applications on ONE environment must take
